@@ -358,3 +358,17 @@ PROPS["C07"] = dict(
          "log length observable (it is the depth; the defect fixed earlier made it 2^depth)",
     assumptions=["invocation counts stand in for running time"],
 )
+
+PROPS["C19"] = dict(
+    streams=["C19"],
+    compare=cmp_laws,
+    classify=lambda case, model, why: dict(kind="failing-input", why=(case[1][:300] if "kind=law" in case[2] else why)),
+    gate_imports=EVAL_GATE + "From Cel.Model Require Import Refs.\nFrom Cel.Proofs Require Import NoCrash RefsProofs.",
+    exhaustive=False,
+    rule="a case is a generated program with random variable and function names in every syntactic "
+         "position (operands, receivers, arguments, indices, map keys and values, list elements, "
+         "struct fields, select chains, macro ranges, variables and bodies, has() arguments): its "
+         "reference sets are compared with the model's, it is executed against contexts defining "
+         "random subsets of the names (outcome compared), and the property's clauses are evaluated on "
+         "the implementation's own answers; non-trivial when some referenced name is undefined",
+)
